@@ -64,6 +64,8 @@ var c12Tails = []c12Tail{
 	{"hctx.Map+hctx.HelperContext", []c12Param{{"hctx.Map", c12THMap, "map"}, {"hctx.HelperContext", c12TICtx, "ctx"}}, nil},
 	{"app-defined context interface", []c12Param{{"AppHelperContext", c12TAppCtx, "ctx"}}, nil},
 	{"map+app-defined context interface", []c12Param{{"map[string]interface{}", c12TMap, "map"}, {"AppHelperContext", c12TAppCtx, "ctx"}}, nil},
+	{"HelperContext+map", []c12Param{{"plush.HelperContext", c12TCtx, "ctx"}, {"map[string]interface{}", c12TMap, "map"}}, nil},
+	{"hctx.HelperContext+hctx.Map", []c12Param{{"hctx.HelperContext", c12TICtx, "ctx"}, {"hctx.Map", c12THMap, "map"}}, nil},
 	{"...int", nil, c12TInt},
 	{"...string", nil, c12TString},
 	{"...interface{}", nil, c12TIface},
@@ -284,7 +286,7 @@ func init() {
 			return s
 		},
 		Run:  c12Run,
-		Rule: "signatures built with reflect.FuncOf/MakeFunc (each is a recording helper): 0..2 (3 thorough) fixed parameters over {string,int,interface{},*struct,*other-struct} x tail {none, map[string]interface{}, hctx.Map, plush.HelperContext, hctx.HelperContext, an application-defined interface with the same method set, map+context in all typings, ...int, ...string, ...interface{}} x result shapes {(), (T), (T,nil), (T,err), (nil error), (error)}; calls with every argument list of length 0..3 (4 thorough) over {nil, \"s\", 1, hash literal, array literal, true, typed nil pointer and non-nil pointer from the context}, each argument wrapped in a logging identity helper, without a block, with a block and with an empty block, after an earlier completed helper call with more arguments. Reference binder: too many / non-assignable => error naming the callee, function not invoked; otherwise invoked exactly once with every supplied value unchanged (nil => zero value of the parameter type, also in the variadic tail), omitted trailing map => non-nil empty map of the call's own (every recording helper writes a mark into the map it received), omitted helper context => context whose HasBlock()/Block() reflect the call's block; argument log duplicate-free, in source order (a prefix when binding fails); first result is the value, non-nil trailing error fails the render. Omitted ordinary parameters are unspecified (either error or zero-fill accepted, supplied positions still checked). Polymorphic call sites: one method call node evaluated with receivers of 3 struct types (and a pointer) whose method sets put the name at different positions, in a loop over a mixed slice and as consecutive executions of one parsed template: the named method is invoked with the supplied argument. Refresh: literal hash / array arguments of a call site evaluated repeatedly (loop, function called thrice, second execution) whose helper modifies what it received: every call receives the literal afresh. Error result shapes: trailing results declared as *E, E (value type), error holding a typed nil, (T, int, error): nil does not fail the render, non-nil does. Indexed receivers: methods called on rs[i] / m[k] / h.Rs[i] / a helper result's element with arguments that mention the indexed variable (the whole list, another element, len of it): the arguments arrive unchanged. Chained calls: (T, error) functions and methods followed by nothing / field / method / nested path / index, in 8 statement forms, succeeding and failing: invoked once, arguments evaluated once, a failing call fails the render with the function's error wrapped and its value is never used. Non-trivial: at least one argument or an auto-supplied parameter.",
+		Rule: "signatures built with reflect.FuncOf/MakeFunc (each is a recording helper): 0..2 (3 thorough) fixed parameters over {string,int,interface{},*struct,*other-struct} x tail {none, map[string]interface{}, hctx.Map, plush.HelperContext, hctx.HelperContext, an application-defined interface with the same method set, map+context in all typings, context+map (the two in the other order), ...int, ...string, ...interface{}} x result shapes {(), (T), (T,nil), (T,err), (nil error), (error)}; calls with every argument list of length 0..3 (4 thorough) over {nil, \"s\", 1, hash literal, array literal, true, typed nil pointer and non-nil pointer from the context}, each argument wrapped in a logging identity helper, without a block, with a block and with an empty block, after an earlier completed helper call with more arguments. Reference binder: too many / non-assignable => error naming the callee, function not invoked; otherwise invoked exactly once with every supplied value unchanged (nil => zero value of the parameter type, also in the variadic tail), omitted trailing map => non-nil empty map of the call's own (every recording helper writes a mark into the map it received), omitted helper context => context whose HasBlock()/Block() reflect the call's block; argument log duplicate-free, in source order (a prefix when binding fails); first result is the value, non-nil trailing error fails the render. Omitted ordinary parameters are unspecified (either error or zero-fill accepted, supplied positions still checked). Polymorphic call sites: one method call node evaluated with receivers of 3 struct types (and a pointer) whose method sets put the name at different positions, in a loop over a mixed slice and as consecutive executions of one parsed template: the named method is invoked with the supplied argument. Refresh: literal hash / array arguments of a call site evaluated repeatedly (loop, function called thrice, second execution) whose helper modifies what it received: every call receives the literal afresh. Error result shapes: trailing results declared as *E, E (value type), error holding a typed nil, (T, int, error): nil does not fail the render, non-nil does. Indexed receivers: methods called on rs[i] / m[k] / h.Rs[i] / a helper result's element with arguments that mention the indexed variable (the whole list, another element, len of it): the arguments arrive unchanged. Chained calls: (T, error) functions and methods followed by nothing / field / method / nested path / index, in 8 statement forms, succeeding and failing: invoked once, arguments evaluated once, a failing call fails the render with the function's error wrapped and its value is never used. Non-trivial: at least one argument or an auto-supplied parameter.",
 		Bound: func(th bool) string {
 			if th {
 				return "<=3 fixed parameters, <=4 arguments"
@@ -301,6 +303,7 @@ func c12Run(t *engine.T, shard string) {
 		c12ErrorShapes(t)
 		c12Refresh(t)
 		c12Blocks(t)
+		c12NoBlock(t)
 		return
 	}
 	if shard == "poly" {
@@ -837,5 +840,55 @@ func c12Blocks(t *engine.T) {
 				}
 			}
 		}
+	}
+}
+
+type c12Box struct{ rec *[]bool }
+
+func (b c12Box) Items(n int, hc plush.HelperContext) []int {
+	*b.rec = append(*b.rec, hc.HasBlock())
+	return []int{n, n + 1}
+}
+
+func (b c12Box) ItemsI(n int, hc hctx.HelperContext) []int {
+	*b.rec = append(*b.rec, hc.HasBlock())
+	return []int{n, n + 1}
+}
+
+func (b c12Box) Self(n int) c12Box { return b }
+
+// c12NoBlock: a call that is followed by the brace of the statement it is part of (a loop's iterable, a condition)
+// has no block of its own: its helper context says so - the body belongs to the loop / the if.
+func c12NoBlock(t *engine.T) {
+	for _, src := range []string{
+		`<%= for (x) in box.Items(2) { %>[<%= x %>]<% } %>`, `<%= for (x) in box.ItemsI(2) { %>[<%= x %>]<% } %>`, `<%= for (x) in items(2) { %>[<%= x %>]<% } %>`,
+		`<%= for (x) in mk(1).Items(2) { %>[<%= x %>]<% } %>`, `<%= for (x) in mk(1).ItemsI(2) { %>[<%= x %>]<% } %>`, `<%= for (x) in box.Self(1).Items(2) { %>[<%= x %>]<% } %>`,
+		`<%= for (x) in boxes[0].Items(2) { %>[<%= x %>]<% } %>`, `<%= for (x) in box.Self(1).Self(2).ItemsI(2) { %>[<%= x %>]<% } %>`,
+		`<%= if (has(1)) { %>y<% } %>`, `<%= if (false) { %>n<% } else if (has(1)) { %>y<% } %>`, `<%= if (box.Self(1).Items(2)) { %>y<% } %>`, `<%= if (mk(1).Items(2)) { %>y<% } %>`,
+		`<% let f = fn() { return has(1) } %><%= if (f()) { %>y<% } %>`, `<%= for (x) in [1] { %><%= for (y) in box.Items(x) { %>[<%= y %>]<% } %><% } %>`,
+	} {
+		src := src
+		t.Case("no-block "+q(src), true, func() (string, *engine.Fail) {
+			var rec []bool
+			ctx := plush.NewContext()
+			ctx.Set("box", c12Box{&rec})
+			ctx.Set("boxes", []c12Box{{&rec}})
+			ctx.Set("mk", func(n int) c12Box { return c12Box{&rec} })
+			ctx.Set("items", func(n int, hc plush.HelperContext) []int { rec = append(rec, hc.HasBlock()); return []int{n} })
+			ctx.Set("has", func(n int, hc hctx.HelperContext) bool { rec = append(rec, hc.HasBlock()); return true })
+			out, err := Render(src, ctx)
+			for _, hb := range rec {
+				if hb {
+					return "", engine.Failf("block", "a call without a block of its own was given a helper context with HasBlock() == true (rendered %q / %v)", out, err)
+				}
+			}
+			if err != nil {
+				return "rejected", nil
+			}
+			if len(rec) == 0 {
+				return "", engine.Failf("block", "rendered %q without invoking the function", out)
+			}
+			return "no-block", nil
+		})
 	}
 }
